@@ -241,7 +241,8 @@ def ip_spellings():
     out = ["127.0.0.1", "127.000.0.1", "1.2.3", "999.1.1.1", "1.2.3.4.5", "0.0.0.0", "255.255.255.255", "256.1.1.1", "1.2.3.04", "0x7f.1.1.1",
            "1", "1.2.3.4.", "v1.x", "vF.a:b", "::", "::1", "1::", "::ffff:1.2.3.4", "64:ff9b::1.2.3.4", "1:2:3:4:5:6:7:8", "1:2:3:4:5:6:7",
            "1:2:3:4:5:6:7:8:9", "12345::", "g::1", "::1%eth0", "fe80::1%25eth0", "fe80::1%Eth0", "fe80::1%é", "fe80::1%", "fe80::1%a/b", "fe80::1%a b",
-           "FE80::A%1", "127.0.0.1%@evil.example:1", "127.0.0.1%/evil.example/1", "10.0.0.1%?q=1", "1.2.3.4%a b1", "1.2.3.4%#1",
+           "FE80::A%1", "0000:0000:0000:0000:0000:ffff:192.168.100.100", "2001:0db8:0000:0000:0000:0000:10.10.10.1",
+           "0000:0000:0000:0000:0000:FFFF:255.255.255.255%Eth0", "127.0.0.1%@evil.example:1", "127.0.0.1%/evil.example/1", "10.0.0.1%?q=1", "1.2.3.4%a b1", "1.2.3.4%#1",
            "1.2.3.4%[1", "[::1]", "::1]", "[::1", "0:0:0:0:0:0:0:0", "2001:DB8:0:0:0:0:0:FF", "2001:db8::0:ff"]
     base = ["2001", "db8", "0", "0", "0", "0", "0", "ff"]
     for mask in range(256):
